@@ -115,7 +115,8 @@ theorem clearRecvBuffer_inv {full : Bool} {g : Ghost} {s : Streams} (h : Inv ful
 /-- `Recv::release_closed_capacity(stream)` (the last handle of the stream is gone): everything
     the stream still holds goes back to the connection window -/
 theorem releaseClosedCapacity_inv {full : Bool} {g : Ghost} {s : Streams} (h : Inv full g s) (id : Nat)
-    (hx : full = true → ∀ x, s.store.get? id = some x → x.state.isClosed = true ∨ x.isRecv = false) :
+    (hx : full = true → ∀ x, s.store.get? id = some x →
+      x.state.isClosed = true ∨ x.isRecv = false ∨ x.inFlightRecvData = 0) :
     Inv full g (s.releaseClosedCapacity id) := by
   unfold Streams.releaseClosedCapacity
   dsimp only
@@ -141,9 +142,10 @@ theorem releaseClosedCapacity_inv {full : Bool} {g : Ghost} {s : Streams} (h : I
         · intro hf y hy ok
           rw [hst1, hs] at hy; cases hy
           refine ok.drop 0 (Nat.zero_le _) ?_
-          rcases hx hf x hs with hc | hr
+          rcases hx hf x hs with hc | hr | h0
           · exact .inr (.inl hc)
           · exact .inr (.inr hr)
+          · exact .inl h0.symm
       have hg2 := get?_modStream (s.releaseConnectionCapacity x.inFlightRecvData true) id
         (fun st => { st with inFlightRecvData := 0 }) (fun _ => rfl)
       rw [hst1, hs] at hg2
